@@ -320,6 +320,63 @@ def n_tun(secure, auth):
         cover("tunnel-refused")
 
 
+def n_redirect(first_exempt, second_exempt, src):
+    """a proxy is configured (option or environment) and the first host answers with a redirect to a second host: for EACH
+    connection of the chain the proxy decision is taken for ITS OWN target - proxied (CONNECT with the configured credentials)
+    unless that host is exempt, direct if it is"""
+    quiet_logging()
+    import os as real_os
+    import websocket
+    exempt = [h for h, e in (("first.example", first_exempt), ("second.example", second_exempt)) if e]
+    n = {"get": 0}
+
+    def respond(server, head, key):
+        if head.startswith("CONNECT "):
+            return (b"HTTP/1.1 200 Connection established\r\n\r\n", "more-http")
+        n["get"] += 1
+        if n["get"] == 1:
+            return b"HTTP/1.1 302 Found\r\nLocation: ws://second.example/b\r\n\r\n"
+        return ("HTTP/1.1 101 Switching Protocols\r\nUpgrade: websocket\r\nConnection: Upgrade\r\nSec-WebSocket-Accept: %s\r\n\r\n" % accept_for(key)).encode()
+
+    k = Kernel(step_budget=4000)
+    net = Net(k, [{"respond": respond}])
+    simnet.install(k, net)
+    ep = EnvPatch()
+    env = {}
+    opts = {}
+    if src == "option":
+        opts = dict(http_proxy_host="proxy.example", http_proxy_port=3128, http_proxy_auth=("user", "pw"), http_no_proxy=list(exempt) or None)
+    else:
+        env["http_proxy"] = "http://user:pw@proxy.example:3128"
+        if exempt:
+            env["no_proxy"] = ",".join(exempt)
+    ep.os_env(env)
+    try:
+        try:
+            ws = websocket.create_connection("ws://first.example/a", timeout=5, **opts)
+        except (sx.Control, sx.ConcreteFailure, sx.ReplayMismatch):
+            raise
+        except Exception as e:
+            sx.require(False, "connect across a redirect raised %s" % type(e).__name__, exempt=str(exempt), src=src)
+            return
+    finally:
+        ep.restore()
+        k.shutdown()
+        simnet.uninstall()
+    dialled = [r[0] for r in net.resolved]
+    exp = ["first.example" if first_exempt else "proxy.example", "second.example" if second_exempt else "proxy.example"]
+    sx.require(dialled == exp, "each connection of a redirect chain dials the proxy unless ITS target is exempt", got=str(dialled), exp=str(exp),
+               exempt=str(exempt), src=src)
+    connects = [r[2].split("\r\n") for r in net.requests if r[2].startswith("CONNECT ")]
+    exp_connects = [("CONNECT %s:80 HTTP/1.1" % h) for h, e in (("first.example", first_exempt), ("second.example", second_exempt)) if not e]
+    sx.require([c[0] for c in connects] == exp_connects, "a tunnel is requested for every non-exempt target of the chain, and only for those",
+               got=str([c[0] for c in connects]), exp=str(exp_connects), src=src)
+    for c in connects:
+        sx.require("Proxy-Authorization: Basic " + base64.b64encode(b"user:pw").decode() in c, "every tunnel request carries the configured credentials",
+                   src=src, got=str([l for l in c if l.lower().startswith("proxy-")]))
+    cover("redirect-proxy")
+
+
 def n_reuse(first_env, second_env):
     """the SAME (empty) http_no_proxy list object is passed for two decisions while the environment's no_proxy changes in between"""
     quiet_logging()
@@ -362,6 +419,10 @@ def obligations(tier):
                    bounds="proxy URL in http_proxy / https_proxy (lower and upper case) with percent-encoded user and password from a catalogue of 9 "
                           "values containing @ : / ? # % and space (all 81 pairs), with and without a trailing slash", must_cover=["env-auth"],
                    kernel=["_url.get_proxy_info"]),
+        Obligation("N-redirect", n_redirect, [dict(first_exempt=a, second_exempt=b, src=c) for a in (False, True) for b in (False, True) for c in ("option", "env")],
+                   bounds="proxy given by option or by http_proxy; a 302 from first.example to second.example; each of the two hosts exempt or not "
+                          "(http_no_proxy option / no_proxy variable)", must_cover=["redirect-proxy"], step_budget=100000,
+                   kernel=["WebSocket.connect (redirect)", "_http.connect", "_get_addrinfo_list", "_url.get_proxy_info", "_tunnel"]),
         Obligation("N-reuse", n_reuse, [dict(first_env=a, second_env=b) for a in ("", "target.example", "other.example") for b in ("", "target.example", "other.example")],
                    bounds="two successive decisions with one shared empty no_proxy list object and every pair of environment values", must_cover=["reuse"],
                    kernel=["_url._is_no_proxy_host", "get_proxy_info"]),
